@@ -100,7 +100,7 @@ func answer(r ring.ReadRing, q query, base time.Time) string {
 	return ""
 }
 
-var updateKinds = []string{"heartbeat", "heartbeat", "state", "tokens", "zone", "addr", "reg", "ro", "rots", "versions", "add", "remove", "swap", "swap", "same", "query", "query", "query"}
+var updateKinds = []string{"heartbeat", "heartbeat", "state", "tokens", "zone", "addr", "reg", "ro", "rots", "versions", "add", "remove", "swap", "swap", "joiner", "joiner", "same", "query", "query", "query"}
 
 func TestInstanceRingHistoryRapid(t *testing.T) {
 	rapid.Check(t, func(rt *rapid.T) {
@@ -209,8 +209,20 @@ func TestInstanceRingHistoryRapid(t *testing.T) {
 				case "state":
 					in.State = rapid.SampledFrom([]ring.InstanceState{ring.ACTIVE, ring.LEAVING, ring.PENDING, ring.JOINING}).Draw(rt, "state")
 					cur[pick] = in
+				case "joiner":
+					// an instance registers without tokens (it has not chosen them yet), in one of the zones or in
+					// a zone of its own that no token owner is in; it gets its tokens with a later "tokens" update
+					// or leaves again with "remove"
+					id := fmt.Sprintf("i%d", next)
+					zone := rapid.SampledFrom(append([]string{"z-joiners"}, zones...)).Draw(rt, "joinerZone")
+					cur[id] = ring.InstanceDesc{Id: idField(next, id), Addr: id + ":1", Zone: zone, State: ring.PENDING, Timestamp: now.Unix(), RegisteredTimestamp: now.Unix()}
+					next++
 				case "tokens":
 					nt := append([]uint32(nil), in.Tokens...)
+					if len(nt) == 0 {
+						nt = []uint32{freshTok()}
+						in.State = ring.ACTIVE
+					}
 					nt[rapid.IntRange(0, len(nt)-1).Draw(rt, "tokIdx")] = freshTok()
 					sort.Slice(nt, func(a, b int) bool { return nt[a] < nt[b] })
 					in.Tokens = nt
